@@ -173,6 +173,7 @@ static void do_op(int kind)
 		qb_log_thread_stop();
 		started = 0;
 		PROP(delivered + dropped_expected == posted, "stop returns only after everything still queued was written");
+		PROP(logt_memory_used == 0, "the backlog accounting is back to zero once everything queued was written (no drift towards the limit)");
 		break;
 	case 5: {
 		/* what qb_log_ctl2 does around every reconfiguration of a threaded target - at ANY time:
@@ -212,5 +213,6 @@ static void harness_scenario(int s0)
 	if (started) { qb_log_thread_stop(); started = 0; }
 	PROP(order_ok, "messages are written in the order the producer logged them, each at most once");
 	PROP(delivered + dropped_expected == posted, "every queued message was written exactly once before finalisation returned");
+	PROP(logt_memory_used == 0, "the backlog accounting is back to zero once everything queued was written (no drift towards the limit)");
 	WITNESS("scenario executed");
 }
